@@ -175,8 +175,9 @@ def lean_audit(prop_module, theorems, timeout=1200):
     """#print axioms + #check of every property theorem; returns dict name -> {axioms, statement}"""
     d = os.path.join(scratch(), "audit")
     os.makedirs(d, exist_ok=True)
-    path = os.path.join(d, "Audit_%s.lean" % prop_module.replace(".", "_"))
-    lines = ["import %s" % prop_module, "set_option pp.fieldNotation.generalized false", ""]
+    mods = [prop_module] if isinstance(prop_module, str) else list(dict.fromkeys(prop_module))
+    path = os.path.join(d, "Audit_%s.lean" % mods[0].replace(".", "_"))
+    lines = ["import %s" % m for m in mods] + ["set_option pp.fieldNotation.generalized false", ""]
     for t in theorems:
         lines.append('#eval IO.println "@@THM %s"' % t)
         lines.append("#check @%s" % t)
@@ -262,7 +263,7 @@ class LeanSide:
         hits = grep_forbidden(self.modules)
         if hits:
             self.problems.append(("forbidden", "forbidden tokens in Lean sources: %s" % "; ".join(hits[:8])))
-        res, out, rc = lean_audit(self.prop_module, self.theorems)
+        res, out, rc = lean_audit([self.prop_module] + [m for m in self.modules if m.startswith("Pff.Props.")], self.theorems)
         lock = load_lock()
         for t in self.theorems:
             info = res.get(t, {})
